@@ -77,7 +77,31 @@ func vH_C02_step() {
 		vLeanDelete(pre, "pk")
 	}
 	vTrace("Flush")
-	vAssert("flush-ok", s.Flush() == nil)
+	if vParam("flushfault") == 1 {
+		// one transient file failure during the Flush: if Flush nevertheless
+		// returns nil the state must be durable; if it reports the error, a
+		// retried Flush must succeed and be durable
+		if k := vChoose("flush-fail-at", 0, vParam("maxfail")); k > 0 {
+			f.failAt = k
+			if vChoose("torn", 0, 1) == 1 {
+				f.torn = true
+				f.tornLen = vInt("torn-len")
+				vAssume(f.tornLen >= 0)
+				vAssume(f.tornLen <= 64)
+			}
+			err := s.Flush()
+			f.failAt, f.torn = 0, false
+			if err != nil {
+				vTrace("Flush failed, retried")
+				vAssert("retried-flush-ok", s.Flush() == nil)
+				vCover("flush-retried")
+			}
+		} else {
+			vAssert("flush-ok", s.Flush() == nil)
+		}
+	} else {
+		vAssert("flush-ok", s.Flush() == nil)
+	}
 	flushed := make([]*vModel, len(models))
 	for i := range models {
 		flushed[i] = models[i].clone()
